@@ -56,6 +56,7 @@ Record msg := { m_id : N; m_tag : tag; m_pay : option N; m_close : bool; m_upg :
    the response object (content) *)
 Record payload := {
   p_tag : tag;                 (* ghost: tag of the head that created it *)
+  p_conn : N;                  (* ghost: connection whose parser created it *)
   p_items : list (N * tag);    (* body tokens fed so far, with their tags *)
   p_eof : bool;
   p_exc : bool;
@@ -153,13 +154,13 @@ Definition set_c_prog (x : conn) (v : prog) : conn :=
 Definition set_c_dirty (x : conn) (v : bool) : conn :=
   {| c_rq := c_rq x; c_key := c_key x; c_phase := c_phase x; c_conn := c_conn x; c_parser := c_parser x; c_pst := c_pst x; c_ptail := c_ptail x; c_psc := c_psc x; c_pupg := c_pupg x; c_htail := c_htail x; c_buf := c_buf x; c_sc := c_sc x; c_exc := c_exc x; c_upg := c_upg x; c_pay := c_pay x; c_prog := c_prog x; c_dirty := v |}.
 Definition set_p_items (x : payload) (v : list (N * tag)) : payload :=
-  {| p_tag := p_tag x; p_items := v; p_eof := p_eof x; p_exc := p_exc x; p_cb := p_cb x |}.
+  {| p_tag := p_tag x; p_conn := p_conn x; p_items := v; p_eof := p_eof x; p_exc := p_exc x; p_cb := p_cb x |}.
 Definition set_p_eof (x : payload) (v : bool) : payload :=
-  {| p_tag := p_tag x; p_items := p_items x; p_eof := v; p_exc := p_exc x; p_cb := p_cb x |}.
+  {| p_tag := p_tag x; p_conn := p_conn x; p_items := p_items x; p_eof := v; p_exc := p_exc x; p_cb := p_cb x |}.
 Definition set_p_exc (x : payload) (v : bool) : payload :=
-  {| p_tag := p_tag x; p_items := p_items x; p_eof := p_eof x; p_exc := v; p_cb := p_cb x |}.
+  {| p_tag := p_tag x; p_conn := p_conn x; p_items := p_items x; p_eof := p_eof x; p_exc := v; p_cb := p_cb x |}.
 Definition set_p_cb (x : payload) (v : option N) : payload :=
-  {| p_tag := p_tag x; p_items := p_items x; p_eof := p_eof x; p_exc := p_exc x; p_cb := v |}.
+  {| p_tag := p_tag x; p_conn := p_conn x; p_items := p_items x; p_eof := p_eof x; p_exc := p_exc x; p_cb := v |}.
 Definition set_x_st (x : exch) (v : xstate) : exch :=
   {| x_st := v; x_conn := x_conn x; x_held := x_held x; x_closed := x_closed x; x_pay := x_pay x |}.
 Definition set_x_held (x : exch) (v : bool) : exch :=
@@ -200,10 +201,10 @@ Definition set_s_tail_surplus (x : state) (v : bool) : state :=
 (* ---- initial state ---- *)
 Definition rq0 : reqp := {| rq_host := 0; rq_port := 0; rq_is_ssl := 0; rq_ssl := 0; rq_proxy := 0; rq_phh := 0; rq_sni := 0 |}.
 Definition conn0 : conn :=
-  {| c_rq := rq0; c_key := []; c_phase := PClosed; c_conn := false; c_parser := false; c_pst := PSHead;
+  {| c_rq := rq0; c_key := key_of_req rq0; c_phase := PClosed; c_conn := false; c_parser := false; c_pst := PSHead;
      c_ptail := false; c_psc := false; c_pupg := false; c_htail := []; c_buf := []; c_sc := false; c_exc := 0;
      c_upg := false; c_pay := None; c_prog := GNone; c_dirty := false |}.
-Definition pay0 : payload := {| p_tag := TIdle; p_items := []; p_eof := false; p_exc := false; p_cb := None |}.
+Definition pay0 : payload := {| p_tag := TIdle; p_conn := 0; p_items := []; p_eof := false; p_exc := false; p_cb := None |}.
 Definition exch0 : exch := {| x_st := XFree; x_conn := 0; x_held := false; x_closed := true; x_pay := None |}.
 Definition init : state :=
   {| s_conn := fun _ => conn0; s_nconn := 0; s_pay := fun _ => pay0; s_npay := 0; s_pool := []; s_x := fun _ => exch0;
@@ -227,12 +228,15 @@ Definition close_proto (cn : conn) : conn :=
 
 Definition prog_done (p : prog) : bool := match p with GDone => true | _ => false end.
 
+(* ghost: a connection given back before the response it owed has completely arrived is dirty *)
+Definition mark_incomplete (cn : conn) : conn := if prog_done (c_prog cn) then cn else set_c_dirty cn true.
+
 (* BaseConnector._release for a connection held by an exchange; arg = should_close argument *)
 Definition release_conn (cf : cfg) (s : state) (c : N) (arg : bool) : state :=
   let cn := s_conn s c in
   match c_phase cn with
   | PFlight _ =>
-      let cn := if prog_done (c_prog cn) then cn else set_c_dirty cn true in
+      let cn := mark_incomplete cn in
       if release_closes_gen (cfg_force cf) arg (proto_should_close s cn)
       then set_conn s c (close_proto cn)
       else set_s_pool (set_conn s c (set_c_phase cn PIdle)) (s_pool s ++ [c])
@@ -303,7 +307,7 @@ Definition parse_tok (cf : cfg) (s : state) (g : seg) (tk : token) (tg : tag) : 
         Some (set_conn s c (set_c_psc cn cl), set_g_msgs g (g_msgs g ++ [m]))
       else
         let pid := s_npay s in
-        let pl := {| p_tag := tg; p_items := []; p_eof := false; p_exc := false; p_cb := None |} in
+        let pl := {| p_tag := tg; p_conn := c; p_items := []; p_eof := false; p_exc := false; p_cb := None |} in
         let m := {| m_id := id; m_tag := tg; m_pay := Some pid; m_close := cl; m_upg := false |} in
         Some (set_conn (set_s_npay (set_payl s pid pl) (pid + 1)) c (set_c_pst (set_c_psc cn cl) (PSBody pid blen)),
               set_g_msgs g (g_msgs g ++ [m]))
@@ -538,7 +542,7 @@ Definition do_peerclose (s : state) (c : N) (oserr : bool) : option state :=
               | _, _, _ => s
               end in
     let cn1 := if c_exc cn =? 0 then set_c_exc cn (if oserr then 3 else 2) else cn in
-    let cn2 := set_c_dirty (set_c_conn (set_c_pay (set_c_parser (set_c_sc cn1 true) false) None) false) true in
+    let cn2 := set_c_dirty (set_c_conn (set_c_pay (set_c_pst (set_c_parser (set_c_sc cn1 true) false) PSHead) None) false) true in
     Some (set_conn s1 c cn2)
   else None.
 
